@@ -520,6 +520,30 @@ fn string_constraint_module(src: &mut Src) -> String {
     s
 }
 
+
+/// types that refer to each other densely (every type has members of most of the others), with
+/// an entry type nobody refers to: the search for recursive references has to visit a graph
+/// with factorially many simple paths
+fn dense_reference_module(src: &mut Src) -> String {
+    let mut s = header(src, "Dense-Mod");
+    s.push('\n');
+    let n = 6 + src.pick(11);
+    s.push_str("Zz-Entry ::= SEQUENCE { a Dn0, b Dn1 OPTIONAL }\n");
+    for i in 0..n {
+        let kw = ["SEQUENCE", "SET", "CHOICE"][src.weighted(&[6, 2, 2])];
+        let mut members = vec![];
+        for j in 0..n {
+            if j != i && src.chance(85) {
+                members.push(if kw == "CHOICE" { format!("m{j} Dn{j}") } else if src.chance(15) { format!("m{j} SEQUENCE OF Dn{j}") } else { format!("m{j} Dn{j} OPTIONAL") });
+            }
+        }
+        members.push("z NULL".into());
+        s.push_str(&format!("Dn{i} ::= {kw} {{ {} }}\n", members.join(", ")));
+    }
+    s.push_str("END\n");
+    s
+}
+
 fn make_jobs(seed: u64, n: usize, reals: &[(String, String)]) -> Vec<Job> {
     let mut drv = Driver::new(seed, 8, 2500);
     let streams: Vec<Vec<u32>> = drv.draw(n).iter().map(|t| t.current()).collect();
@@ -529,7 +553,7 @@ fn make_jobs(seed: u64, n: usize, reals: &[(String, String)]) -> Vec<Job> {
         .enumerate()
         .map(|(i, s)| {
             let mut src = Src::new(s);
-            let class = src.weighted(&[2, 3, 3, 3, 2, 1, 2, 3, 2, 3]);
+            let class = src.weighted(&[20, 30, 30, 30, 20, 10, 20, 30, 20, 30, 2]);
             // skip a few numbers so that the inner generators do not mirror the class choice
             for _ in 0..3 {
                 src.raw();
@@ -562,6 +586,7 @@ fn make_jobs(seed: u64, n: usize, reals: &[(String, String)]) -> Vec<Job> {
                 7 => Job { class: "type-value-mismatch", text: mismatch_module(&mut src) },
                 8 => Job { class: "import-web", text: import_web(&mut src) },
                 9 => Job { class: "string-constraint-algebra", text: string_constraint_module(&mut src) },
+                10 => Job { class: "dense-reference-web", text: dense_reference_module(&mut src) },
                 5 => {
                     // (malformed input nested deeper than ~25 levels took exponential time: finding
                     // F-exp-backtrack, repaired; the mutants nest up to 120 levels)
